@@ -11,6 +11,7 @@ import (
 	"fmt"
 	"os"
 	"path/filepath"
+	"strings"
 
 	"github.com/nspcc-dev/neofs-node/pkg/local_object_storage/blobstor/common"
 	"github.com/nspcc-dev/neofs-node/pkg/local_object_storage/blobstor/fstree"
@@ -28,6 +29,25 @@ type sweepCase struct {
 	End   int    `json:"buffer_end"`
 	P     int    `json:"prefix_at"`
 	Sizes []int  `json:"member_sizes"`
+	Only  int    `json:"only_member,omitempty"` // index+1 of the only member that is read (0: all)
+}
+
+// fpKind is Kind without the "(N buffered)" detail (one root cause, one fingerprint).
+func (c sweepCase) fpKind() string {
+	if i := strings.IndexByte(c.Kind, '('); i >= 0 {
+		if j := strings.IndexByte(c.Kind, ')'); j > i {
+			return c.Kind[:i] + c.Kind[j+1:]
+		}
+	}
+	return c.Kind
+}
+
+// fpClass is class() with the two fully-buffered classes merged (fingerprints).
+func (c sweepCase) fpClass() string {
+	if k := c.class(); k != "prefix-ends-at-buffer-end" {
+		return k
+	}
+	return "prefix-inside-buffer"
 }
 
 func (c sweepCase) class() string {
@@ -45,7 +65,7 @@ func (c sweepCase) class() string {
 	return "prefix-beyond-buffer-end"
 }
 
-func sweepCases() []sweepCase {
+func sweepCases(quick bool) []sweepCase {
 	const tail = 0x141 + 0x100 // 577: both low bytes of the length are non-zero
 	const first = 0x19b        // 411
 	var cs []sweepCase
@@ -55,7 +75,7 @@ func sweepCases() []sweepCase {
 				return
 			}
 		}
-		cs = append(cs, sweepCase{kind, end, p, sizes})
+		cs = append(cs, sweepCase{Kind: kind, End: end, P: p, Sizes: sizes})
 	}
 	for _, end := range []int{hbuf, 2 * hbuf} {
 		for p := end - sweepLo; p <= end+sweepHi; p++ {
@@ -71,11 +91,76 @@ func sweepCases() []sweepCase {
 	for p := p2 + hbuf - sweepLo; p <= p2+hbuf+sweepHi; p++ {
 		add("3-members-after-seek", p2+hbuf, p, p2-memberPfx, p-p2-memberPfx, tail)
 	}
+	return append(cs, streamedSweepCases(quick)...)
+}
+
+// streamedSweepCases: the swept member is itself streamed (longer than the read window B, or than the caller
+// buffer 2B) and sits in last or middle position; its 38-byte prefix takes every alignment relative to the
+// window end (0..38 prefix bytes inside the window, plus margins). Only the reads of the swept member are the
+// point here (Only = its index+1); the leading members have the same sizes as in the small-tail sweep.
+func streamedSweepCases(quick bool) []sweepCase {
+	const small, first = 0x241, 0x19b
+	lo := memberPfx + 2
+	bigs := []int{hbuf + 0x141}
+	ends := []int{hbuf}
+	if !quick {
+		lo = sweepLo
+		bigs = append(bigs, 2*hbuf+0x19b)
+		ends = append(ends, 2*hbuf)
+	}
+	var cs []sweepCase
+	add := func(kind string, end, p, only int, sizes ...int) {
+		for _, s := range sizes {
+			if s < 260 || s&0xff == 0 {
+				return
+			}
+		}
+		cs = append(cs, sweepCase{Kind: kind, End: end, P: p, Sizes: sizes, Only: only})
+	}
+	for bi, big := range bigs {
+		sfx := []string{"/streamed-member", "/member>2B"}[bi]
+		for _, end := range ends {
+			for p := end - lo; p <= end+sweepHi; p++ {
+				add("2-members"+sfx, end, p, 2, p-memberPfx, big)
+				if bi == 0 {
+					add("3-members-middle"+sfx, end, p, 2, p-memberPfx, big, small)
+					add("3-members"+sfx, end, p, 3, first, p-2*memberPfx-first, big)
+				}
+			}
+		}
+		if quick { // the caller-buffer sized member: first window only, 2 members
+			continue
+		}
+	}
+	if quick {
+		big := 2*hbuf + 0x19b
+		for p := hbuf - lo; p <= hbuf+sweepHi; p++ {
+			add("2-members/member>2B", hbuf, p, 2, p-memberPfx, big)
+		}
+	}
+	// after a prefix that straddles the first window end (the refill keeps its buffered part, so the buffer
+	// holds more than B bytes): full window, the swept member's data may start beyond B inside the buffer
+	big := hbuf + 0x141
+	for _, rem := range []int{19, 37} {
+		if quick && rem != 37 {
+			continue
+		}
+		p2 := hbuf - rem
+		for p := 2*hbuf - sweepLo; p <= 2*hbuf+sweepHi; p++ {
+			add(fmt.Sprintf("3-members-after-straddling-prefix(%d buffered)/streamed-member", rem), 2*hbuf, p, 3, p2-memberPfx, p-p2-memberPfx, big)
+		}
+	}
+	p2 := hbuf + 5003
+	for p := p2 + hbuf - lo; p <= p2+hbuf+sweepHi; p++ {
+		add("3-members-after-seek/streamed-member", p2+hbuf, p, 3, p2-memberPfx, p-p2-memberPfx, big)
+	}
 	return cs
 }
 
 // sizedObject builds an object whose encoding has exactly total bytes.
-func sizedObject(format string, total, k int) *tobj { return sizedObjectPat(format, total, "random", k) }
+func sizedObject(format string, total, k int) *tobj {
+	return sizedObjectPat(format, total, "random", k)
+}
 
 func sizedObjectPat(format string, total int, pattern string, k int) *tobj {
 	L := total - 200
@@ -117,7 +202,11 @@ func buildSweep(w *world, cases []sweepCase) {
 		if err != nil || len(raw) < c.P+memberPfx || raw[c.P] != 0x7f {
 			run.Fatal("sweep case %+v: unexpected file layout (err=%v)", c, err)
 		}
-		objs = append(objs, bo...)
+		if c.Only > 0 {
+			objs = append(objs, bo[c.Only-1])
+		} else {
+			objs = append(objs, bo...)
+		}
 	}
 	w.layers["fstree/boundary-sweep"] = storLayer{"fstree", t}
 	w.objs["fstree/boundary-sweep"] = objs
@@ -128,7 +217,16 @@ func putBatchOrderedAt(t *fstree.FSTree, root string, objs []*tobj, datas [][]by
 }
 
 // sweepRanges: whole object, full ranges, first/last byte, both halves, clamped and unsatisfiable ranges.
-func sweepRanges(L uint64) []common.PayloadRange {
+func sweepRanges(L, pfx uint64) []common.PayloadRange {
+	rs := sweepRangesBase(L)
+	if pfx > 1 && pfx+1 < L { // ranges ending at, crossing and starting at the end of the head buffered with the header
+		rs = append(rs, common.NewPayloadRange(pfx-1, 1), common.NewPayloadRange(pfx-1, 2), common.NewPayloadRange(pfx, 1),
+			common.NewPayloadRange(pfx+1, L-pfx-1), common.NewPayloadRangeBounds(pfx/2, pfx+pfx/4), common.NewPayloadRangeFrom(pfx))
+	}
+	return rs
+}
+
+func sweepRangesBase(L uint64) []common.PayloadRange {
 	return []common.PayloadRange{
 		{}, common.NewPayloadRange(0, 0), common.NewPayloadRangeFrom(0), common.NewPayloadRangeFrom(1), common.NewPayloadRangeFrom(L - 1),
 		common.NewPayloadRangeSuffix(1), common.NewPayloadRangeSuffix(L - 1), common.NewPayloadRange(0, 1), common.NewPayloadRange(1, L-1),
